@@ -50,6 +50,17 @@ SelectInt(branches, n, ty) ==
     LET I == { i \in DOMAIN branches : \E j \in DOMAIN branches[i].alts : InSpecInt(branches[i].alts[j], n, AnchorInt[ty]) } IN
     IF I = {} THEN 0 ELSE CHOOSE i \in I : \A j \in I : i <= j
 
+\* floats between the anchors: position 2i is anchor i, an odd position 2i+1 is any value strictly between anchor i and anchor i+1
+\* (1 = below the first anchor, 13 = above the last).  The driver supplies the closest representable neighbours of the anchors.
+InSpecHalf(s, c) ==
+    CASE s.f = "exact" -> c = 2 * s.a
+      [] s.f = "excl"  -> (s.lo = 0 \/ 2 * s.lo <= c) /\ (s.hi = 0 \/ c < 2 * s.hi)
+      [] s.f = "incl"  -> (s.lo = 0 \/ 2 * s.lo <= c) /\ c <= 2 * s.hi
+      [] OTHER         -> TRUE
+SelectHalf(branches, c) ==
+    LET I == { i \in DOMAIN branches : \E j \in DOMAIN branches[i].alts : InSpecHalf(branches[i].alts[j], c) } IN
+    IF I = {} THEN 0 ELSE CHOOSE i \in I : \A j \in I : i <= j
+
 \* ---- documented rejections ---------------------------------------------------
 IsFloat(ty) == ty \in {"f32", "f64"}
 
